@@ -61,11 +61,7 @@ def extract_fgraph(spec):
 
         def graph_json(g):
             b = _build.Builder(g)
-            b.discover(b.main)
-            b.graph_topo.reverse()
-            for x in b.graph_topo:
-                b.update_scope_tree(x)
-            b.resolve_scopes()
+            b.build_main()  # the real stages; only arguments_of / scope_own are read afterwards
 
             def one(gg):
                 nodes = []
